@@ -58,7 +58,8 @@ def check_C02(tier, seed):
     mc = PI.mc_explore(res, small, "MC_Interp_c2", wd, "mc", timeout=(240 if quick else 2400))
     for inv, x in mc["violated"]:
         msg = f"Interp (all schedules) violates {inv} on query {x['text']!r}" if x else f"Interp violates {inv}"
-        if inv in ("RowsPrefix", "RowsFinal", "SemFinal"): res.drift.append(msg + " - the model's rows differ from the real engine's unbatched rows")
+        if inv == "Stuck": res.drift.append(msg + " - the model reaches a state in which the engine still runs but no action is enabled (the real runs all ended)")
+        elif inv in ("RowsPrefix", "RowsFinal", "SemFinal"): res.drift.append(msg + " - the model's rows differ from the real engine's unbatched rows")
         else: res.violation(msg, text="model " + inv, replay={"instance": x, "invariant": inv})
     # (3) binding B: traces of Tap(Batching(GA)) under read-ahead policies must be behaviours of Interp (policy inferred by TLC)
     txs = PI.trace_instances(insts, obs)
@@ -76,7 +77,7 @@ def check_C02(tier, seed):
     # (4) binding A: schedules generated by TLC replayed through the Scripted adapter on the real engine
     simx = [PI.interp_instance(i, o) for i, o in zip(insts, obs) if PI.usable(i, o, 30) and o["exec"]["rows"]][: (60 if quick else 400)]
     for k, x in enumerate(simx): x["id"] = k + 1
-    scheds = PI.tlc_schedules(res, simx, "MC_Interp_c2", wd, 300 if quick else 4000, seed)
+    scheds = PI.tlc_schedules(res, simx, "MC_Interp_sim", wd, 300 if quick else 4000, seed)
     src = {i["id"]: i for i in insts}
     rinsts = []
     for k, x in enumerate(simx):
